@@ -8,6 +8,7 @@ let () =
   | _ :: "den" :: _ -> Runmain.run ~spec:true ()
   | _ :: "scope" :: _ -> Runmain.run ~scope:true ()
   | _ :: "cli" :: _ -> Climain.run ()
+  | _ :: "scon" :: _ -> Sconmain.run ()
   | _ :: "loc" :: _ -> Locmain.run ()
   | _ :: "atval" :: _ -> Atmain.run ()
   | _ :: "dw" :: _ -> Dwmain.run ()
